@@ -16,8 +16,10 @@ HINT = ("Those families are exhausted; find something of a DIFFERENT family and 
         "integer conversions between uint64 / int64 / int / uint32 at API boundaries, reuse of a variable captured by a closure, "
         "shadowed variables, range-loop variable pointers, partial writes when the second of two related writes fails. "
         "It must be realistic, hard to spot, compile, pass the existing tests, and genuinely break THIS property.")
+only = set(sys.argv[2:])
 for p in props:
     pid = p["id"]
+    if only and pid not in only: continue
     wt = "/tmp/m%s-%s" % (rnd, pid)
     if not os.path.isdir(wt):
         subprocess.run(["git", "-C", "/repo", "worktree", "add", "--detach", wt, "HEAD"], check=True, stdout=subprocess.DEVNULL, stderr=subprocess.DEVNULL)
